@@ -599,3 +599,145 @@ Fixpoint out_of (dt : dtype) (h : hdr) (pend : list (list Z)) (its : list item) 
 
 Definition expected (dt : dtype) (p : params) (its : list item) : list Z :=
   out_of dt (hdr_of p) [] its.
+
+(* ------------------------------------------------------------------ *)
+(** * The valid choices, spelled out *)
+
+Definition B16 : Z := 32768.
+Definition bnd (M x : Z) : Prop := - M <= x <= M.
+
+(* a sample of a 16-bit signal that the current bit shift can represent *)
+Definition sample_ok (shift s : Z) : Prop := bnd B16 s /\ s mod 2 ^ shift = 0.
+
+Definition sumabs (qs : list Z) : Z := fold_right (fun q a => Z.abs q + a) 0 qs.
+
+Definition pred_ok (p : params) (bs : Z) (pr : predictor) (smp : list Z) : Prop :=
+  match pr with
+  | PZero => Forall (fun s => s = 0) smp
+  | PDiff k => 0 <= k <= 3
+  | PQlpc qs => Z.of_nat (length qs) <= p_maxnlpc p /\ Z.max (p_maxnlpc p) c_NWRAP <= bs
+                /\ sumabs qs <= 16384
+  end.
+
+Definition next_chan (p : params) (chan : nat) : nat :=
+  if Z.of_nat chan =? p_nchan p - 1 then O else S chan.
+
+(* [bs], [shift], [chan]: block size, bit shift and channel in force *)
+Fixpoint valid_items (p : params) (bs shift : Z) (chan : nat) (its : list item) : Prop :=
+  match its with
+  | [] => True
+  | IBlockSize n :: r => chan = O /\ 0 < n <= p_bs p /\ valid_items p n shift chan r
+  | IBitShift s :: r => 0 <= s < 32 /\ valid_items p bs s chan r
+  | IBlock pr resn smp :: r =>
+    Z.of_nat (length smp) = bs /\ 0 <= resn /\ Forall (sample_ok shift) smp /\ pred_ok p bs pr smp
+    /\ valid_items p bs shift (next_chan p chan) r
+  end.
+
+(* ------------------------------------------------------------------ *)
+(** * From a signal and per-round choices to a script *)
+
+(* the choices of one round: an optional new bit shift, an optional new block
+   size, and for every channel a predictor and a residual width *)
+Record round := mkRound { r_shift : option Z; r_bs : option Z; r_blocks : list (predictor * Z) }.
+
+Fixpoint zip_blocks (cs : list (predictor * Z)) (chans : list (list Z)) (n : nat) : list item :=
+  match cs, chans with
+  | (p, resn) :: cs', ch :: chans' => IBlock p resn (firstn n ch) :: zip_blocks cs' chans' n
+  | _, _ => []
+  end.
+
+Definition round_bs (bs : Z) (r : round) : Z := match r_bs r with Some n => n | None => bs end.
+
+(* [chans]: what is left of every channel *)
+Fixpoint script_of (bs : Z) (rs : list round) (chans : list (list Z)) : list item :=
+  match rs with
+  | [] => []
+  | r :: rs' =>
+    let n := Z.to_nat (round_bs bs r) in
+    (match r_shift r with Some s => [IBitShift s] | None => [] end)
+    ++ (match r_bs r with Some n => [IBlockSize n] | None => [] end)
+    ++ zip_blocks (r_blocks r) chans n
+    ++ script_of (round_bs bs r) rs' (map (skipn n) chans)
+  end.
+
+(* the samples consumed by the rounds *)
+Fixpoint total_len (bs : Z) (rs : list round) : nat :=
+  match rs with
+  | [] => O
+  | r :: rs' => (Z.to_nat (round_bs bs r) + total_len (round_bs bs r) rs')%nat
+  end.
+
+
+(* ------------------------------------------------------------------ *)
+(** * The word-level bit reader (word_get, uvar_get with gbuffer / nbitget) *)
+
+Definition byte_ok (b : Z) : Prop := 0 <= b < 256.
+
+(* struct.unpack(">l", four bytes) *)
+Definition word_of (b0 b1 b2 b3 : Z) : Z :=
+  let u := ((b0 * 256 + b1) * 256 + b2) * 256 + b3 in
+  if u <? 2147483648 then u else u - 4294967296.
+
+Fixpoint words_of (bytes : list Z) : list Z :=
+  match bytes with
+  | b0 :: b1 :: b2 :: b3 :: r => word_of b0 b1 b2 b3 :: words_of r
+  | _ => []
+  end.
+
+(* gbuffer, nbitget, and the words not yet fetched *)
+Record wst := mkW { w_g : Z; w_n : Z; w_ws : list Z }.
+
+Definition masktab (k : Z) : Z := Z.shiftl 1 k - 1.
+
+(* while True: nbitget -= 1; if gbuffer & (1 << nbitget): break;
+               if not nbitget: gbuffer = word_get(); nbitget = 32;  result += 1 *)
+Fixpoint unary_w (fuel : nat) (g n : Z) (ws : list Z) (result : Z) : res (Z * wst) :=
+  match fuel with
+  | O => Err EFuel
+  | S f =>
+    let n1 := n - 1 in
+    if negb (Z.land g (Z.shiftl 1 n1) =? 0) then Ok (result, mkW g n1 ws)
+    else if n1 =? 0 then
+      match ws with
+      | [] => Err EIO
+      | w :: r => unary_w f w c_NBITPERLONG r (result + 1)
+      end
+    else unary_w f g n1 ws (result + 1)
+  end.
+
+(* while nbin: ... *)
+Fixpoint low_w (fuel : nat) (nbin : Z) (g n : Z) (ws : list Z) (result : Z) : res (Z * wst) :=
+  match fuel with
+  | O => Err EFuel
+  | S f =>
+    if nbin =? 0 then Ok (result, mkW g n ws)
+    else if nbin <=? n then
+      Ok (Z.lor (Z.shiftl result nbin) (Z.land (Z.shiftr g (n - nbin)) (masktab nbin)),
+          mkW g (n - nbin) ws)
+    else
+      match ws with
+      | [] => Err EIO
+      | w :: r => low_w f (nbin - n) w c_NBITPERLONG r
+                        (Z.lor (Z.shiftl result n) (Z.land g (masktab n)))
+      end
+  end.
+
+Definition uvar_get_w (nbin : Z) (w : wst) : res (Z * wst) :=
+  do w0 <- (if w_n w =? 0 then
+              match w_ws w with
+              | [] => Err EIO
+              | x :: r => Ok (mkW x c_NBITPERLONG r)
+              end
+            else Ok w) ;;
+  do '(result, w1) <- unary_w (Z.to_nat (w_n w0) + 32 * length (w_ws w0) + 1) (w_g w0) (w_n w0) (w_ws w0) 0 ;;
+  low_w (length (w_ws w1) + 2) nbin (w_g w1) (w_n w1) (w_ws w1) result.
+
+(* the bits a reader state still has to deliver *)
+Fixpoint bits_lo (g : Z) (k : nat) : bits :=
+  match k with
+  | O => []
+  | S k' => Z.testbit g (Z.of_nat k') :: bits_lo g k'
+  end.
+
+Definition abs_w (w : wst) : bits :=
+  bits_lo (w_g w) (Z.to_nat (w_n w)) ++ flat_map (fun x => bits_lo x 32) (w_ws w).
